@@ -76,8 +76,6 @@ def check_centre_and_context(its, rec, ctx=""):
         want = {k: its_edges[e][k] for k in RC_EDGE_KEYS}
         if rce[e] != want:
             raise Violation("rc:bond-labels", f"{ctx}bond {e}: centre label {rce[e]} != ITS label {want}")
-    if _views(its) != (its_nodes, its_edges):
-        raise Violation("rc:input-modified", f"{ctx}get_rc changed the ITS it was given")
 
     # the centre of a centre is itself
     rc2 = get_rc(rc)
